@@ -61,6 +61,7 @@ import (
 
 	"github.com/AliyunContainerService/terway/pkg/aliyun/client"
 	apiErr "github.com/AliyunContainerService/terway/pkg/aliyun/client/errors"
+	aliyuneni "github.com/AliyunContainerService/terway/pkg/aliyun/eni"
 	"github.com/AliyunContainerService/terway/pkg/aliyun/metadata"
 	"github.com/AliyunContainerService/terway/pkg/backoff"
 	vswpool "github.com/AliyunContainerService/terway/pkg/vswitch"
@@ -81,7 +82,11 @@ type c07fFault struct {
 }
 
 type c07fOp struct {
-	Kind  string    `json:"k"` // create | assign4 | assign6 | unassign4 | unassign6 | delete
+	Kind  string    `json:"k"` // create | assign4 | assign6 | unassign4 | unassign6 | delete | load
+	// load: LoadNetworkInterface of an interface the pool holds, after the metadata has
+	// converged; Err4 / Err6: the address lookup of that family is answered with an error
+	Err4 bool `json:"err4,omitempty"`
+	Err6 bool `json:"err6,omitempty"`
 	ENI   int       `json:"eni,omitempty"`
 	Count int       `json:"count,omitempty"`
 	V6    int       `json:"v6,omitempty"`   // create: ipv6 count
@@ -165,7 +170,7 @@ func c07fGen(t *rapid.T) c07fScenario {
 		deletes := 0
 		for j := 0; j < nops; j++ {
 			o := c07fOp{}
-			o.Kind = rapid.SampledFrom([]string{"assign4", "assign4", "assign6", "unassign4", "create", "unassign6", "assign4", "delete"}).Draw(t, "kind")
+			o.Kind = rapid.SampledFrom([]string{"assign4", "assign4", "assign6", "unassign4", "create", "load", "unassign6", "assign4", "delete", "load"}).Draw(t, "kind")
 			if o.Kind == "delete" {
 				if deletes > 2 {
 					o.Kind = "assign4"
@@ -182,6 +187,12 @@ func c07fGen(t *rapid.T) c07fScenario {
 			}
 			if o.Kind == "delete" {
 				o.DetachBusy = rapid.SampledFrom([]int{0, 1, 0, 2}).Draw(t, "detachBusy")
+			}
+			if o.Kind == "load" {
+				o.Err4 = rapid.IntRange(0, 2).Draw(t, "err4") == 0
+				o.Err6 = rapid.IntRange(0, 2).Draw(t, "err6") == 0
+				nd.Ops = append(nd.Ops, o)
+				continue
 			}
 			o.Fault = c07fGenFault(t, o.Kind, slowLeft > 0)
 			if o.Fault.Meta == "hide" || o.Fault.Meta == "ghost" || (o.Fault.Meta == "err" && o.Fault.MetaN == 0) {
@@ -206,6 +217,9 @@ type c07fENI struct {
 	ghost    map[netip.Addr]int // removed addresses still listed for that many polls (-1 = always)
 	errPolls int                // address list requests answered 403 (-1 = always)
 	busy     int                // Detaching: delete requests still to be refused
+	err4     bool               // load: the private-ipv4s lookup is answered 403
+	err6     bool               // load: the ipv6s lookup is answered 403
+	failPath string             // attached: this per-interface metadata path is answered 403
 }
 
 type c07fCloud struct {
@@ -232,6 +246,11 @@ var (
 	c07fRegistry   sync.Map // mac -> *c07fCloud
 	c07fServerOnce sync.Once
 )
+
+// c07fPrimaryMAC is the instance's primary interface (never part of the pool).
+const c07fPrimaryMAC = "00:16:3e:ff:ff:01"
+
+var c07fListFail atomic.Bool // attached: the MAC listing is answered 403
 
 var errC07fInjected = errors.New("c07f: injected OpenAPI error")
 
@@ -602,6 +621,10 @@ func c07fMetadataHandler(w http.ResponseWriter, r *http.Request) {
 		_, _ = w.Write([]byte("token"))
 		return
 	}
+	if p == "/latest/meta-data/mac" {
+		_, _ = w.Write([]byte(c07fPrimaryMAC))
+		return
+	}
 	const pre = "/latest/meta-data/network/interfaces/macs/"
 	if !strings.HasPrefix(p, pre) {
 		http.NotFound(w, r)
@@ -609,7 +632,11 @@ func c07fMetadataHandler(w http.ResponseWriter, r *http.Request) {
 	}
 	rest := strings.Trim(strings.TrimPrefix(p, pre), "/")
 	if rest == "" {
-		var macs []string
+		if c07fListFail.Load() {
+			http.Error(w, "forbidden", http.StatusForbidden)
+			return
+		}
+		macs := []string{c07fPrimaryMAC + "/"}
 		c07fRegistry.Range(func(k, v any) bool {
 			cl := v.(*c07fCloud)
 			cl.mu.Lock()
@@ -674,8 +701,22 @@ func c07fMetadataHandler(w http.ResponseWriter, r *http.Request) {
 		sort.Strings(out)
 		return out, true
 	}
+	if e.failPath != "" && e.failPath == parts[1] {
+		http.Error(w, "forbidden", http.StatusForbidden)
+		return
+	}
 	switch parts[1] {
+	case "network-interface-id":
+		_, _ = w.Write([]byte(e.id))
+	case "primary-ip-address":
+		_, _ = w.Write([]byte(e.v4[0].String()))
+	case "vswitch-id":
+		_, _ = w.Write([]byte("vsw-0"))
 	case "private-ipv4s":
+		if e.err4 {
+			http.Error(w, "forbidden", http.StatusForbidden)
+			return
+		}
 		l, ok := list(e.v4, true)
 		if !ok {
 			http.Error(w, "forbidden", http.StatusForbidden)
@@ -687,6 +728,10 @@ func c07fMetadataHandler(w http.ResponseWriter, r *http.Request) {
 		b, _ := json.Marshal(l)
 		_, _ = w.Write(b)
 	case "ipv6s":
+		if e.err6 {
+			http.Error(w, "forbidden", http.StatusForbidden)
+			return
+		}
 		l, ok := list(e.v6, false)
 		if !ok {
 			http.Error(w, "forbidden", http.StatusForbidden)
@@ -800,6 +845,7 @@ func c07fRunNode(idx int, nd c07fNode) (res c07fNodeResult) {
 	}
 	f := &Aliyun{
 		ctx: ctx, openAPI: cloud, vsw: pool, enableIPv4: true, enableIPv6: true,
+		getter: aliyuneni.NewENIMetadata(true, true),
 		instanceID: "i-" + fmt.Sprint(idx), zoneID: "zone-0",
 		vSwitchOptions: []string{"vsw-0"}, securityGroupIDs: []string{"sg-1"},
 		selectionPolicy: vswpool.VSwitchSelectionPolicyOrdered,
@@ -1061,6 +1107,60 @@ func c07fRunNode(idx int, nd c07fNode) (res c07fNodeResult) {
 			for a := range haveBefore {
 				if !pick[a] {
 					res.violation = fmt.Sprintf("node %d: %s removed %s which it was not asked to remove", idx, what, a)
+					return
+				}
+			}
+		case "load":
+			// Local.sync: `ipv4, ipv6, err := LoadNetworkInterface(mac); if err != nil { return }`
+			// and then syncIPLocked marks every local address that is not in the answer
+			// invalid. => an answer without error must list exactly what the metadata
+			// service holds, for both families; a failed lookup must surface as an error.
+			if len(usable) == 0 {
+				continue
+			}
+			l := usable[op.ENI%len(usable)]
+			cloud.mu.Lock()
+			e := cloud.enis[l.id]
+			var want4, want6 []string
+			if e != nil {
+				// the metadata service has converged: it lists what the cloud holds
+				e.hide, e.ghost, e.errPolls = map[netip.Addr]int{}, map[netip.Addr]int{}, 0
+				e.err4, e.err6 = op.Err4, op.Err6
+				want4, want6 = c07fAddrs(e.v4), c07fAddrs(e.v6)
+			}
+			cloud.mu.Unlock()
+			if e == nil {
+				continue
+			}
+			what = fmt.Sprintf("op %d LoadNetworkInterface(%s) ipv4-lookup-fails=%v ipv6-lookup-fails=%v", oi, l.id, op.Err4, op.Err6)
+			got4, got6, err := f.LoadNetworkInterface(l.mac)
+			cloud.mu.Lock()
+			e.err4, e.err6 = false, false
+			cloud.mu.Unlock()
+			tr("%s -> v4=%v v6=%v err=%v", what, got4, got6, err)
+			if op.Err4 || op.Err6 {
+				label("load:lookup-failed")
+				res.nontrivial = true
+				if err == nil {
+					res.violation = fmt.Sprintf("node %d: %s returned no error: v4=%v v6=%v (metadata holds v4=%v v6=%v); Local.sync would take the partial answer for complete",
+						idx, what, got4, got6, want4, want6)
+					return
+				}
+			} else {
+				label("load:ok")
+				if err != nil {
+					res.violation = fmt.Sprintf("node %d: %s failed although both lookups are answered: %v", idx, what, err)
+					return
+				}
+			}
+			if err == nil {
+				g4, g6 := c07fAddrs(got4), c07fAddrs(got6)
+				sort.Strings(g4)
+				sort.Strings(g6)
+				sort.Strings(want4)
+				sort.Strings(want6)
+				if strings.Join(g4, ",") != strings.Join(want4, ",") || strings.Join(g6, ",") != strings.Join(want6, ",") {
+					res.violation = fmt.Sprintf("node %d: %s returned v4=%v v6=%v without error, the metadata service holds v4=%v v6=%v", idx, what, g4, g6, want4, want6)
 					return
 				}
 			}
